@@ -240,7 +240,14 @@ def hostile(rnd, seed):
                     "negchunk": rnd.choice([b"-1", b"-5", b"-ffffffffffffffff"]), "wschunk": rnd.choice([b" 5", b"\t5", b"5 ", b" ", b""]),
                     "nocrlf": b"5", "longchunkline": b"5;" + b"e" * rnd.choice([250, 251, 252, 253, 254, 255, 256, 300, 5000])}[kind]
             sep = b"" if kind == "nocrlf" else b"\r\n"
-            stream = head + b"\r\n" + size + sep + body[:5].ljust(5, b"x") + b"\r\n0\r\n\r\n"
+            pre = b""
+            if kind == "hugechunk" and rnd.random() < 0.6:
+                # a huge size in a later chunk: together with what has been received it wraps around 2^64 (or only just does not)
+                k = rnd.choice([1, 16, 100])
+                pre = (b"%x\r\n" % k) + body_bytes(k, seed + 1) + b"\r\n"
+                size = b"%x" % rnd.choice([2 ** 64 - k, 2 ** 64 - k - 1, 2 ** 64 - k + 5, 2 ** 64 - 3, 2 ** 64 - 11, 2 ** 63, 2 ** 64 - 256])
+                lim = rnd.choice([k, k + 1, k + 10, 5000, 2 ** 31 - 1])
+            stream = head + b"\r\n" + pre + size + sep + body[:5].ljust(5, b"x") * rnd.choice([1, 1, 40]) + b"\r\n0\r\n\r\n"
     elif kind == "interim_incomplete":
         # interim response(s), then the stream ends (or stalls, or overflows) before a complete final header block
         nxt = rnd.choice([b"", b"HTTP/1.1 200 OK\r\nServer: x", b"HTTP/1.1 200 OK\r\nServer: x\r\n\r", b"X-Big: " + b"b" * 70000, b"HTTP/1.1 999 Bad\r\n\r\n", b"\x00\r\n\r\n"])
